@@ -21,6 +21,8 @@
 //@stub ^_ZNSi3getEv$ c12_get
 //@stub ^_ZNSi5tellgEv$ c12_tellg
 //@stub ^_ZNSi5seekgESt4fposI11__mbstate_tE$ c12_seekg
+//@stub ^_ZNSi5seekgElSt12_Ios_Seekdir$ c12_seekg_off
+//@stub ^_ZNSt13basic_istreamIwSt11char_traitsIwEE5seekgElSt12_Ios_Seekdir$ c12_wseekg_off
 //@stub ^_ZNSt9basic_iosIcSt11char_traitsIcEE5clearESt12_Ios_Iostate$ c12_clear
 //@stub ^_ZNSt13basic_istreamIwSt11char_traitsIwEE3getEv$ c12_wget
 //@stub ^_ZNSt13basic_istreamIwSt11char_traitsIwEE5tellgEv$ c12_wtellg
